@@ -135,7 +135,7 @@ def rsize(rng, big=6):
         return 1
     if r < 0.65:
         return 2
-    return rng.randrange(3, big + 1)
+    return rng.randrange(3, max(big, 3) + 1)
 
 
 def rmask(rng, n):
